@@ -12,6 +12,12 @@ CHECKS = {
    note="SHA-256 / rs_merkle collision freedom; nothing claimed beyond the length bound.",
    technique="bounded exhaustive enumeration of all input pairs against a reference (prefix) model, executed on the real CommitTree/CommitProof code",
    design_ref="DESIGN.md §5 C08"),
+ "C13": dict(engine="crashx", level="fault_enumeration",
+   text="For each of 11 mutating operations (create/update/delete/move secret, rename/re-flag/describe/create/delete folder, compact folder, change folder password) on the file-system backend the real operation is executed by a driver process under strace; every file-system effect between two marker syscalls is replayed on the pre-state and one crash image is materialised after every effect and for every torn prefix of every write (all byte prefixes in thorough; stride 24 plus fixed offsets in quick). The replay is validated on every run against the real after-state (byte for byte). Every image is opened through LocalAccount::new_unauthenticated + sign_in and judged: opens; every event log equals its state before or after the operation; the folder served equals the replay of its log.",
+   note="Crash model = process death (completed syscalls persist in order; writes may be torn at any byte); power-loss reordering out of scope (the code never fsyncs). SQLite backend relies on SQLite's transaction recovery (trusted) and is not enumerated at this commit. Merge/rewind operations are not yet driven.",
+   technique="exhaustive enumeration of crash points and torn-write prefixes of the real syscall trace of each operation, each image judged by re-opening with the real code",
+   design_ref="DESIGN.md §5 C13"),
+
  "C11": dict(engine="authx", level="model_checking",
    text="Explicit exploration of server state x access configuration x route x credential form with raw HTTP requests against a real in-process server: states {D1 trusted; D1+D2 trusted; D2 revoked; D2 re-trusted and revoked within one device-log patch} are reached LIVE on the serving process through real client syncs (so the server's in-memory trusted-device set is the one its handlers produced), 15 route/method pairs (account, status, events scan/diff/patch, files compare, file put/get/delete/move), 12 credential forms (none, non-base58, wrong length, legacy dotted, unknown key, D2, D1 over other bytes, another account's device, missing / malformed account header, D1 addressed to account B, valid), access configs none / allow A / allow B / deny A / deny B. Oracle: a request that must be refused is never answered 2xx and leaves every file of the server directory and both accounts' sync status unchanged.",
    note="Requests are sent one at a time; the combined allow+deny configuration is outside the property's quantifier; the websocket upgrade route is not driven; Ed25519 is trusted.",
